@@ -76,6 +76,8 @@ WALL = {'quick': 70, 'thorough': 580}
 TOL = 1e-9
 KEY_READONLY = 'C17:Strain:p_vectors-single-list:read-only-broadcast'
 KEY_ONENBR = 'C17:Strain:atom-with-single-neighbour'
+KEY_NONCONTIG = 'C17:Strain:p_vectors-array:not-C-contiguous'
+KEY_ROASSIGN = 'C17:Strain:p_vectors-per-atom-array:read-only-assignment'
 I3 = np.eye(3)
 MAXATOMS = 900
 
@@ -167,9 +169,16 @@ def build_ref(xt, need, need_axis=None):
     return r
 
 
-def mk_system(pos, atype, vects, origin, pbc):
+def mk_system(pos, atype, vects, origin, pbc, intpos=False, labels=None):
+    """intpos: coordinates that are all whole numbers are handed over as an integer array (documented input:
+    'list/ndarray of float'; whole numbers written without a decimal point are the common way to type a small cell)"""
     import atomman as am
-    return am.System(atoms=am.Atoms(pos=np.array(pos, dtype=float), atype=np.array(atype, dtype=int)),
+    P = np.array(pos, dtype=float)
+    if intpos and np.array_equal(P, np.rint(P)):
+        P = P.astype(int)
+        if labels is not None:
+            labels.add('int_pos')
+    return am.System(atoms=am.Atoms(pos=P, atype=np.array(atype, dtype=int)),
                      box=am.Box(vects=np.array(vects, dtype=float), origin=np.array(origin, dtype=float)),
                      pbc=[bool(x) for x in pbc])
 
@@ -363,9 +372,9 @@ def check_list(what, I, J, n, refI, refJ, bandI=None, bandJ=None):
 
 
 class strain_guard:
-    """maps the two known failures of defect.Strain to keyed violations (context manager)"""
-    def __init__(self, single_list, few_neighbours):
-        self.single, self.few = single_list, few_neighbours
+    """maps the known failures of defect.Strain to keyed violations (context manager)"""
+    def __init__(self, single_list, few_neighbours, noncontig=False, readonly3d=False):
+        self.single, self.few, self.noncontig, self.readonly3d = single_list, few_neighbours, noncontig, readonly3d
 
     def __enter__(self):
         return self
@@ -380,22 +389,259 @@ class strain_guard:
             if self.few and 'wrong number of dimensions' in msg:
                 raise Violation('Strain on a system in which an atom has exactly one neighbour inside the cutoff raises ValueError(%s)' % msg,
                                 key=KEY_ONENBR) from None
+            if self.noncontig and 'not C-contiguous' in msg:
+                # p_vectors : "array-like object"; the function form nye_tensor() takes the same array
+                raise Violation('Strain with p_vectors given as an ndarray whose per-atom blocks are not C-contiguous (Fortran-ordered / '
+                                'sliced / transposed array) raises ValueError(%s) when G is solved' % msg, key=KEY_NONCONTIG) from None
+            if self.readonly3d and 'read-only' in msg:
+                raise Violation('Strain / set_p_vectors with per-atom p_vectors given as one read-only (natoms, n, 3) ndarray raises '
+                                'ValueError(%s): set_p_vectors assigns into the caller\'s array' % msg, key=KEY_ROASSIGN) from None
         return False
 
 
-def make_dd(am, s0, s1, reference, lazy, **nb):
-    """the three documented ways to the same object: everything at construction; construction without a list, then
-    solve(list); construction with the other reference, then solve(list, reference)"""
+def make_dd(am, s0, s1, reference, lazy, other=None, pre=None, reusable=False, **nb):
+    """the documented ways to the same object: (0) everything at construction; (1) construction without a list, then
+    solve(list); (2) construction with the other reference, then solve(list, reference); (3) an object already solved
+    with another cutoff and the other reference, read, then solve(list, reference); (4) an object solved for the two
+    systems in swapped roles, then solve(system0, system1, list); (5) 'pre': an object that was solved while system1
+    was in an earlier state (the System object has since been updated in place), solved again - without arguments where
+    its stored list is still the reference system's list ('reusable'), else with the list / cutoff"""
+    DD = am.defect.DifferentialDisplacement
+    if lazy == 5 and pre is None:
+        lazy = 3
+    if lazy in (3, 4) and other is None:
+        lazy = lazy - 2
     if lazy == 1:
-        dd = am.defect.DifferentialDisplacement(s0, s1, reference=reference)
+        dd = DD(s0, s1, reference=reference)
         require(dd.ddvectors is None, 'DifferentialDisplacement without neighbors/cutoff already holds ddvectors')
         dd.solve(**nb)
     elif lazy == 2:
-        dd = am.defect.DifferentialDisplacement(s0, s1, reference=1 - reference)
+        dd = DD(s0, s1, reference=1 - reference)
         dd.solve(reference=reference, **nb)
+    elif lazy == 3:
+        dd = DD(s0, s1, cutoff=other, reference=1 - reference)
+        require(dd.ddvectors is not None and len(dd.ddvectors) == len(dd.arrowcenters), 'DifferentialDisplacement(cutoff) holds no ddvectors')
+        dd.solve(reference=reference, **nb)
+    elif lazy == 4:
+        dd = DD(s1, s0, cutoff=other, reference=reference)
+        dd.solve(system0=s0, system1=s1, **nb)
+    elif lazy == 5:
+        dd = pre
+        if 'neighbors' in nb or not reusable:
+            dd.solve(**nb)
+        else:
+            dd.solve()
     else:
-        dd = am.defect.DifferentialDisplacement(s0, s1, reference=reference, **nb)
+        dd = DD(s0, s1, reference=reference, **nb)
     return dd
+
+
+# ----------------------------------------------------------------------------- object / process histories
+
+NOHIST = {'ops0': [], 'ops1': [], 'build1': None, 'decoy': False, 'repeat': False, 'forms': 0, 'intpos': False}
+
+
+def other_cutoff(xt, rc, k, x):
+    """a cutoff inside any of the first three shell gaps of the crystal (not necessarily the judged one) and whether it
+    selects other shells than rc"""
+    gaps, _ = _gaps(xt['kind'], xt['a'], xt['ca'] or 1.633, 1.05, False)
+    lo, hi = gaps[k % len(gaps)]
+    c = lo * 1.01 + x * (hi * 0.99 - lo * 1.01)
+    same = any(g[0] < min(c, rc) and max(c, rc) < g[1] for g in gaps)
+    return c, not same
+
+
+def run_queries(am, s, ops, xt, rc, labels, allow_wrap):
+    """Earlier use of one System object: neighbour lists with other cutoffs (also stored as the documented 'neighbors'
+    attribute), r0(), dvect / dmag, scaled reads, derived box quantities, wrap().  None of this may change what a later
+    analysis call returns.  Returns True when wrap() was called (positions may then have moved by cell vectors)."""
+    n = s.natoms
+    wrapped = False
+    for q in ops:
+        op, k, x = q['op'], q['k'], q['x']
+        if op == 'wrap' and not allow_wrap:
+            op = 'scaled'
+        with warnings.catch_warnings():
+            warnings.simplefilter('ignore')
+            if op in ('nlist', 'attr'):
+                c, differs = other_cutoff(xt, rc, k, x)
+                if op == 'nlist':
+                    s.neighborlist(cutoff=c)
+                else:
+                    s.neighbors = am.NeighborList(system=s, cutoff=c)
+                if differs:
+                    labels.add('q_other_shells')
+            elif op == 'r0':
+                s.r0()
+            elif op == 'dvect':
+                i = k % n
+                js = [(k // 7 + 3 * m) % n for m in range(1 + k % 4)]
+                s.dvect(i, js)
+                s.dmag(i, js[0])
+            elif op == 'scaled':
+                s.atoms_prop('pos', scale=True)
+                s.atoms_prop(key='pos', index=k % n, scale=True)
+            elif op == 'derived':
+                b = s.box
+                b.reciprocal_vects, b.volume, b.a, b.alpha, s.natypes, s.atoms.atypes
+            elif op == 'wrap':
+                s.wrap()
+                wrapped = True
+        labels.add('q_' + op)
+    return wrapped
+
+
+def snapshot(s):
+    return np.array(s.atoms.pos), np.array(s.box.vects), np.array(s.box.origin), [bool(x) for x in s.pbc]
+
+
+def after_queries(s, snap, wrapped, what):
+    """queries leave the System as it was; wrap() may move atoms by whole cell vectors along periodic axes (and
+    stretch the cell along the others).  Returns the positions now held by the object."""
+    pos, vects, origin, pbc = snap
+    p = np.array(s.atoms.pos, dtype=float)
+    require(p.shape == pos.shape and [bool(x) for x in s.pbc] == pbc, lambda: '%s: queries changed the number of atoms or pbc' % what)
+    if not wrapped:
+        require(np.array_equal(p, pos) and np.array_equal(np.asarray(s.box.vects), vects) and np.array_equal(np.asarray(s.box.origin), origin),
+                lambda: '%s: read-only queries (neighborlist / r0 / dvect / scaled reads) changed positions or box' % what)
+        return p
+    d = np.linalg.solve(vects.T, (p - pos).T).T
+    k = np.rint(d)
+    ok = np.abs(d - k).max() <= 1e-9 and np.abs(k).max() <= 1 and all(pbc[j] or not k[:, j].any() for j in range(3))
+    require(ok, lambda: '%s: wrap() moved atoms by other than one cell vector along periodic axes (largest relative move %r)'
+            % (what, d[np.argmax(np.abs(d).max(axis=1))].tolist()))
+    return p
+
+
+def input_form(a, form):
+    """the same numbers as nested lists / Fortran-ordered / read-only array"""
+    a = np.array(a, dtype=float)
+    if form == 1:
+        return a.tolist()
+    if form == 2:
+        return np.asfortranarray(a)
+    if form == 3:
+        a.setflags(write=False)
+    return a
+
+
+def set_state(s, pos, vects, origin, pbc, b, labels):
+    """bring an existing System object to another state through its public setters: box, pbc, then positions"""
+    P = input_form(pos, b['form'] % 4)
+    vects, origin = np.array(vects, dtype=float), np.array(origin, dtype=float)
+    same_vects = np.array_equal(np.asarray(s.box.vects), vects)
+    br = b['box'] % 6
+    if br == 0:
+        s.box_set(vects=vects, origin=origin)
+    elif br == 1:
+        s.box.set(vects=vects.tolist(), origin=origin.tolist())
+    elif br == 2:
+        s.box.vects = vects
+        s.box.origin = origin
+    elif br == 3:
+        s.box_set(avect=vects[0], bvect=vects[1], cvect=vects[2], origin=origin)
+    elif br == 4:
+        s.box_set(vects=vects, origin=origin, scale=True)          # atoms follow the cell, then are set below
+    elif same_vects:
+        s.box_set(origin=origin)
+    else:
+        s.box.set(avect=tuple(vects[0]), bvect=tuple(vects[1]), cvect=tuple(vects[2]), origin=tuple(origin))
+    s.pbc = [bool(x) for x in pbc]
+    pr = b['pos'] % 6
+    if pr == 0:
+        s.atoms.pos[:] = P
+    elif pr == 1:
+        s.atoms.pos = P
+    elif pr == 2:
+        s.atoms_prop('pos', value=P)
+    elif pr == 3:
+        s.atoms.view['pos'][:] = P
+    elif pr == 4:
+        s.atoms_prop('pos', value=DR.rel_coords(np.array(pos, dtype=float), vects, origin), scale=True)
+    else:
+        s.atoms.view['pos'] = P
+    labels.add('inplace_built')
+    labels.add('setpos%d' % pr)
+    labels.add('setbox%d' % br)
+
+
+def make_current(am, hist, r, stateA, pos1, vects1, origin1, pbc1, xt, rc, labels, allow_wrap, while_A=None):
+    """The deformed System object of the case.  Without 'build1' a fresh object (then queried); with it the object first
+    exists in another state (stateA = (pos, vects, origin); possibly other pbc; queried there; while_A(s1) lets the
+    caller create analysis objects on it; keptA: the cell of that state arrived unchanged), and is then updated in place to the judged state and queried again.
+    Returns (s1, box arrived unchanged, positions now held)."""
+    b = hist['build1']
+    ops = hist['ops1']
+    if b is None:
+        s1 = mk_system(pos1, r.atype, vects1, origin1, pbc1)
+        first = []
+    else:
+        posA, vectsA, originA = stateA
+        pbcA = [not x for x in pbc1] if b['pbcflip'] else pbc1
+        s1 = mk_system(posA, r.atype, vectsA, originA, pbcA, hist['intpos'], labels)
+        keptA = box_kept(s1, vectsA, originA)
+        first, ops = ops[:(len(ops) + 1) // 2], ops[(len(ops) + 1) // 2:]
+        run_queries(am, s1, first, xt, rc, labels, allow_wrap)
+        if while_A is not None:
+            while_A(s1, keptA)
+        set_state(s1, pos1, vects1, origin1, pbc1, b, labels)
+        if b['pbcflip']:
+            labels.add('pbc_set_later')
+    kept = box_kept(s1, vects1, origin1)
+    snap = snapshot(s1)
+    if b is not None:
+        # every setter route must have produced the judged state itself
+        require(np.abs(snap[0] - pos1).max() <= 64 * DR.EPS * (amax(pos1) + amax(vects1) + amax(origin1)),
+                lambda: 'positions set through route pos=%d box=%d form=%d differ from the given ones by %.3g'
+                % (b['pos'] % 6, b['box'] % 6, b['form'] % 4, np.abs(snap[0] - pos1).max()))
+    wrapped = run_queries(am, s1, ops, xt, rc, labels, allow_wrap) if kept else False
+    p1 = after_queries(s1, snap, wrapped, 'deformed system') if kept else snap[0]
+    if first or ops:
+        labels.add('queried1')
+    if wrapped:
+        labels.add('am_wrapped')
+    return s1, kept, p1
+
+
+def make_reference(am, hist, r, pbc, xt, rc, labels, allow_wrap):
+    s0 = mk_system(r.pos, r.atype, r.vects, r.origin, pbc, hist['intpos'], labels)
+    kept = box_kept(s0, r.vects, r.origin)
+    snap = snapshot(s0)
+    wrapped = run_queries(am, s0, hist['ops0'], xt, rc, labels, allow_wrap) if kept else False
+    p0 = after_queries(s0, snap, wrapped, 'reference system') if kept else snap[0]
+    if hist['ops0']:
+        labels.add('queried0')
+    if wrapped:
+        labels.add('am_wrapped')
+    return s0, kept, p0
+
+
+@functools.lru_cache(maxsize=1)
+def _decoy_data():
+    a = 3.0
+    _, rel, _ = DR.unit_cell('bcc', a)
+    cells = np.array([[i, j, k] for i in range(3) for j in range(3) for k in range(3)], dtype=float)
+    pos = ((rel[None, :, :] + cells[:, None, :]).reshape(-1, 3)) * a
+    F = I3 + np.array([[0.01, 0.004, 0.0], [0.0, -0.006, 0.003], [0.002, 0.0, 0.008]])
+    return a, pos, 3 * a * I3, F
+
+
+def run_decoy(am, full=True):
+    """the same tools on an unrelated pair of systems (a strained 54-atom bcc block) in between: nothing of it may be
+    remembered by the next call (full=False: the compiled function forms only)"""
+    a, pos, V, F = _decoy_data()
+    t = np.ones(len(pos), dtype=int)
+    d0 = mk_system(pos, t, V, np.zeros(3), [True, True, True])
+    d1 = mk_system(pos @ F.T, t, V @ F.T, np.zeros(3), [True, True, False])
+    with warnings.catch_warnings():
+        warnings.simplefilter('ignore')
+        am.displacement(d0, d1)
+        am.defect.slip_vector(d0, d1, cutoff=0.9 * a)
+        am.defect.disregistry(d0, d1, m=[1, 0, 0], n=[0, 0, 1], planepos=[0, 0, 0.25 * a])
+        if full:
+            am.defect.DifferentialDisplacement(d0, d1, cutoff=0.9 * a, reference=0)
+            st = am.defect.Strain(d1, cutoff=0.9 * a, basesystem=d0, theta_max=20)
+            st.strain, st.angularvelocity
 
 
 def amax(x):
@@ -439,17 +685,38 @@ def oracle_displacement(case):
         origin1 = r.origin + bs @ vects1
         pos1, shift = DR.wrap(pos1, vects1, origin1, pbc1)
     labels |= xtal_labels(r)
-    s0 = mk_system(r.pos, r.atype, r.vects, r.origin, pbc)
-    s1 = mk_system(pos1, r.atype, vects1, origin1, pbc1)
-    if not (box_kept(s0, r.vects, r.origin) and box_kept(s1, vects1, origin1)):
+    hist = case.get('hist') or NOHIST
+    # object history: earlier queries on both System objects (no wrap(): this clause keeps its own book of the cell
+    # vectors every atom was moved by; one query per object and no r0(), to keep this cheap clause cheap - the other
+    # clauses run the full lists); the deformed object may first exist as the reference crystal / half-way state
+    light = lambda ops: [dict(q, op='dvect' if q['op'] == 'r0' else q['op']) for q in ops[:1]]
+    hist = dict(hist, ops0=light(hist['ops0']), ops1=light(hist['ops1']))
+    s0, kept0, _ = make_reference(am, hist, r, pbc, xt, rc, labels, False)
+    stateA = (r.pos, r.vects, r.origin)
+    if hist['build1'] and hist['build1']['state'] == 'other':
+        stateA = (r.pos + 0.5 * (pos1 - r.pos), 0.5 * (r.vects + vects1), 0.5 * (r.origin + origin1))
+    s1, kept1, _ = make_current(am, hist, r, stateA, pos1, vects1, origin1, pbc1, xt, rc, labels, False)
+    if not (kept0 and kept1):
         return labels | {'box_zeroed_skip'}
     br = case['boxref']
-    if br == 'default':
-        got = am.displacement(s0, s1)
-    elif br == 'none':
-        got = am.displacement(s0, s1, box_reference=None)
-    else:
-        got = am.displacement(s0, s1, box_reference=br)
+
+    def call():
+        if br == 'default':
+            return am.displacement(s0, s1)
+        if br == 'none':
+            return am.displacement(s0, s1, box_reference=None)
+        if hist['forms'] & 2:
+            return am.displacement(s0, s1, br)
+        return am.displacement(s0, s1, box_reference=br)
+    if hist['decoy']:
+        run_decoy(am, False)
+        labels.add('decoy')
+    got = call()
+    if hist['repeat']:
+        run_decoy(am, False)
+        again = call()
+        require(np.array_equal(np.asarray(again), np.asarray(got)), 'displacement() of the same two systems differs between two calls')
+        labels.add('repeat')
     got = np.asarray(got)
     require(got.shape == (r.natoms, 3) and np.all(np.isfinite(got)), lambda: 'displacement returned shape %r' % (got.shape,))
     raw = pos1 - r.pos
@@ -512,7 +779,10 @@ def oracle_displacement(case):
 # ----------------------------------------------------------------------------- strain
 
 def expected_strain(F):
-    Gx = np.linalg.inv(F).T
+    return expected_from_G(np.linalg.inv(F).T)
+
+
+def expected_from_G(Gx):
     D = I3 - Gx
     e = 0.5 * (D + D.T)
     w = 0.5 * (D - D.T)
@@ -566,14 +836,19 @@ def oracle_strain(case):
         sh = dict(sh, gap=1 + sh['gap'] % (len(gaps) - 1))
         rc, dnn, kgap, gaps = choose_cutoff(xt, sh, 0.045, 1.12, True)
     F, hasrot, hasE = gradient(case['F'])
+    hist = case.get('hist') or NOHIST
+    shist = case.get('shist')
+    smode = shist['mode'] if shist else None
     # largest displacement difference over a neighbour pair: |F - I| * rc
     dF = np.linalg.norm(F - I3, 2)
+    if smode == 'inplace':
+        FA, _, _ = gradient(shist['F0'])
+        dF = max(dF, np.linalg.norm(FA - I3, 2))
     r = build_ref(xt, 2.2 * 1.04 * (rc * (1 + dF) + 0.05 * dnn))
     labels = xtal_labels(r) | {'ref_' + refmode, 'nbr_' + case['nbrmode'], 'gap%d' % kgap}
     pos1, vects1, origin1, u, shift = deform(r, F, case['move'], pbc)
-    s0 = mk_system(r.pos, r.atype, r.vects, r.origin, pbc)
-    s1 = mk_system(pos1, r.atype, vects1, origin1, pbc)
-    if not (box_kept(s0, r.vects, r.origin) and box_kept(s1, vects1, origin1)):
+    s0, kept0, _ = make_reference(am, hist, r, pbc, xt, rc, labels, True)
+    if not kept0:
         return labels | {'box_zeroed_skip'}
     N = r.natoms
     # my neighbour pairs in the reference; the deformed crystal must have the same ones (complete shells, margins)
@@ -656,41 +931,193 @@ def oracle_strain(case):
                 co = (outer / np.linalg.norm(outer, axis=1)[:, None]) @ ps.T
                 if co.max() > math.cos(math.radians(kw['theta_max'])) + 1e-6:
                     labels.add('subset_dup')
-    with warnings.catch_warnings():
-        warnings.simplefilter('ignore')
-        if case['nbrmode'] == 'neighbors':
-            nl1 = am.NeighborList(system=s1, cutoff=rc)
-            if refmode == 'base':
-                nl0 = s0.neighborlist(cutoff=rc)
-                st = am.defect.Strain(s1, neighbors=nl1, basesystem=s0, baseneighbors=nl0, **kw)
-            elif wrap_axes is not None:
-                st = am.defect.Strain(s1, neighbors=nl1, p_vectors=pv, axes=wrap_axes, **kw)
-            else:
-                st = am.defect.Strain(s1, neighbors=nl1, p_vectors=pv, **kw)
+    # ---- documented input forms of the same numbers
+    forms = hist['forms']
+    nbrmode = case['nbrmode']
+    rcv = np.float64(rc) if forms & 1 else rc
+    if forms & 2 and 'theta_max' in kw and float(kw['theta_max']).is_integer():
+        kw['theta_max'] = int(kw['theta_max'])
+        labels.add('theta_int')
+    pvform = (forms >> 2) & 3
+    if pv is not None and pvform:
+        # nested lists / Fortran-ordered / read-only arrays ("array-like object")
+        pv = [input_form(x, pvform) for x in pv] if isinstance(pv, list) else input_form(pv, pvform)
+        labels.add('pv_form%d' % pvform)
+
+    def map_pv(pvec, M):
+        return [np.asarray(x, dtype=float) @ M.T for x in pvec] if isinstance(pvec, list) else np.asarray(pvec, dtype=float) @ M.T
+
+    def new_strain(sys1, base, pvec, kws):
+        """(Strain object, list of the analysed system, list of the base system) along the route of the case: cutoff,
+        given lists, or the documented 'neighbors' attribute of the systems"""
+        nl1 = nl0 = None
+        args = {}
+        if nbrmode == 'neighbors':
+            nl1 = am.NeighborList(system=sys1, cutoff=rcv)
+            args['neighbors'] = nl1
+            if base is not None:
+                nl0 = base.neighborlist(cutoff=rcv)
+                args['baseneighbors'] = nl0
+        elif nbrmode == 'attr':
+            sys1.neighbors = nl1 = am.NeighborList(system=sys1, cutoff=rcv)
+            if base is not None:
+                base.neighbors = nl0 = am.NeighborList(system=base, cutoff=rcv)
         else:
-            if refmode == 'base':
-                st = am.defect.Strain(s1, cutoff=rc, basesystem=s0, **kw)
-            elif wrap_axes is not None:
-                st = am.defect.Strain(s1, cutoff=rc, p_vectors=pv, axes=wrap_axes, **kw)
+            args['cutoff'] = rcv
+        if base is not None:
+            args['basesystem'] = base
+        else:
+            args['p_vectors'] = pvec
+            if wrap_axes is not None:
+                args['axes'] = wrap_axes
+        args.update(kws)
+        return am.defect.Strain(sys1, **args), nl1, nl0
+
+    def read_prop(st, name):
+        if name == 'asdict':
+            return st.asdict()
+        if name == 'save':
+            return st.save_to_system(['strain', 'invariant1', 'angularvelocity'])
+        return np.array(getattr(st, name))
+
+    def stage0(st, G0x, judged):
+        """the earlier state of the object: the drawn properties are read (so that they are held by the object when its
+        state changes) and, where the expectation is known, judged like the final ones"""
+        got = {}
+        for name in shist['reads0']:
+            got[name] = read_prop(st, name)
+        if not judged or G0x is None:
+            return
+        G0 = np.array(st.G)
+        errG = np.abs(G0 - G0x).reshape(N, -1).max(axis=1)
+        bad = np.nonzero(good & ~(errG <= TOL))[0]
+        require(len(bad) == 0, lambda: 'earlier state of the Strain object (%s): G of atom %d differs from the expected %r by %.3g'
+                % (smode, bad[0], G0x.tolist(), errG[bad[0]]))
+        _, e0, w0, a1, a2, a3, av0 = expected_from_G(G0x)
+        for name, exp in (('strain', e0), ('rotation', w0), ('invariant1', a1), ('invariant2', a2), ('invariant3', a3), ('angularvelocity', av0)):
+            if name in got:
+                err = np.abs(got[name] - exp).reshape(N, -1).max(axis=1)
+                bad = np.nonzero(good & ~(err <= TOL))[0]
+                require(len(bad) == 0, lambda: 'earlier state of the Strain object (%s): %s of atom %d differs from the expectation by %.3g'
+                        % (smode, name, bad[0], err[bad[0]]))
+        labels.add('stage0_judged')
+
+    # failures of the class on documented input forms that are listed as open findings (keyed; the case ends there)
+    pv_arr = isinstance(pv, np.ndarray)
+    guard = strain_guard(single_list and wrap_axes is None, few,
+                         noncontig=pv_arr and pvform == 2 and wrap_axes is None,
+                         readonly3d=pv_arr and pvform == 3 and pv.ndim == 3)
+    with guard:
+        base = s0 if refmode == 'base' else None
+        pre = {}
+        if smode == 'inplace':
+            posA, vectsA, originA, _, _ = deform(r, FA, shist['move0'], pbc)
+            IA, JA, _, _ = pair_table(posA, vectsA, pbc, rc)
+            assert np.array_equal(IA, I0) and np.array_equal(JA, J0), 'generator: shells not complete in the earlier state'
+
+            def while_A(sA, keptA):
+                with warnings.catch_warnings():
+                    warnings.simplefilter('ignore')
+                    pre['st'] = new_strain(sA, base, pv, kw)
+                    with strain_guard(single_list and wrap_axes is None, few):
+                        stage0(pre['st'][0], np.linalg.inv(FA).T, keptA)
+                    if case.get('ddlazy', 0) == 5:
+                        pre['dd'] = am.defect.DifferentialDisplacement(s0, sA, cutoff=rc, reference=case['ddref'])
+            # the periodicity stays: the lists made in the earlier state are the lists of the judged state only then
+            hist1 = dict(hist, build1=dict(shist['build'], pbcflip=False))
+            s1, kept1, _ = make_current(am, hist1, r, (posA, vectsA, originA), pos1, vects1, origin1, pbc, xt, rc, labels, True, while_A)
+        else:
+            s1, kept1, _ = make_current(am, hist, r, None, pos1, vects1, origin1, pbc, xt, rc, labels, True)
+        if not kept1:
+            return labels | {'box_zeroed_skip'}
+        Gx, e, w, i1, i2, i3, av = expected_strain(F)
+        with warnings.catch_warnings():
+            warnings.simplefilter('ignore')
+            if smode == 'inplace':
+                st, nl1, nl0 = pre['st']
+            elif smode == 'pvec':
+                # other reference vectors first: those of the reference crystal strained by M = I + E0 (|E0| <= 1 %), for
+                # which G = (F M^-1)^-T; then the right ones through set_p_vectors / build_p_vectors
+                E0 = shist['F0']['E'] if any(shist['F0']['E']) else [1.0, 0.0, 0.0, 0.0, 0.0, 0.0]
+                M, _, _ = gradient({'rot': None, 'E': E0, 'emag': shist['e0']})
+                judged = True
+                if refmode == 'base':
+                    s0A = mk_system(r.pos @ M.T, r.atype, r.vects @ M.T, r.origin @ M.T, pbc)
+                    judged = box_kept(s0A, r.vects @ M.T, r.origin @ M.T)
+                    st, nl1, _ = new_strain(s1, s0A, None, kw)
+                else:
+                    st, nl1, _ = new_strain(s1, None, map_pv(pv, M if wrap_axes is None else r.A.T @ M @ r.A), kw)
+                with strain_guard(single_list and wrap_axes is None, few):
+                    stage0(st, np.linalg.inv(F @ np.linalg.inv(M)).T, judged)
+                if refmode == 'base':
+                    k = shist['pset'] % 3
+                    if k == 0:
+                        st.build_p_vectors(s0, cutoff=rcv)
+                    elif k == 1:
+                        st.build_p_vectors(s0, neighbors=am.NeighborList(system=s0, cutoff=rcv))
+                    else:
+                        s0.neighbors = am.NeighborList(system=s0, cutoff=rcv)
+                        st.build_p_vectors(s0)
+                else:
+                    st.set_p_vectors(pv, axes=wrap_axes)
+            elif smode == 'theta':
+                # an angle window below every p-q angle first (no pairs: G = identity, documented warning), then the real one
+                st, nl1, nl0 = new_strain(s1, base, pv, dict(kw, theta_max=0.02))
+                with strain_guard(single_list and wrap_axes is None, few):
+                    stage0(st, None, False)
             else:
-                st = am.defect.Strain(s1, cutoff=rc, p_vectors=pv, **kw)
-        # a listed defect of the class must not hide the function form and the differential displacements: the keyed
-        # violation is kept and raised after everything that does not depend on the class has been judged
-        pending = None
-        try:
-            with strain_guard(single_list and wrap_axes is None, few):
-                Gg = np.array(st.G)
-        except Violation as v:
-            if v.key not in (KEY_READONLY, KEY_ONENBR):
-                raise
-            pending = v
-        if pending is None:
-            res = {k: np.array(getattr(st, k)) for k in ('strain', 'rotation', 'invariant1', 'invariant2', 'invariant3',
-                                                        'angularvelocity', 'nye')}
-            dct = st.asdict()
-    Gx, e, w, i1, i2, i3, av = expected_strain(F)
+                st, nl1, nl0 = new_strain(s1, base, pv, kw)
+            if smode:
+                if hist['decoy']:
+                    run_decoy(am)
+                    labels.add('decoy')
+                # second solve of the same object: the documented ways to recompute
+                T = kw.get('theta_max', 27)
+                route = shist['resolve']
+                if smode == 'theta' and route not in ('solve_theta', 'setter'):
+                    route = 'setter' if shist['pset'] % 2 else 'solve_theta'
+                if route == 'solve':
+                    st.solve_G()
+                elif route == 'solve_theta':
+                    st.solve_G(theta_max=T)
+                elif route == 'clear':
+                    st.clear_properties()
+                else:
+                    st.theta_max = T
+                    st.solve_G()
+                labels.add('sh_' + smode)
+                labels.add('rs_' + route)
+                labels.add('strain_resolved')
+                if set(shist['reads0']) - {'G'}:
+                    labels.add('derived_read_before')
+            # a listed defect of the class must not hide the function form and the differential displacements: the keyed
+            # violation is kept and raised after everything that does not depend on the class has been judged
+            pending = None
+            names = ['G', 'strain', 'rotation', 'invariant1', 'invariant2', 'invariant3', 'angularvelocity', 'nye']
+            if case.get('order'):
+                names = [names[k] for k in DR.permutation(len(names), case['order'])]
+                if names[0] != 'G':
+                    labels.add('derived_read_first')
+            res = {}
+            try:
+                with strain_guard(single_list and wrap_axes is None, few):
+                    for k in names:
+                        res[k] = np.array(getattr(st, k))
+            except Violation as v:
+                if v.key not in (KEY_READONLY, KEY_ONENBR):
+                    raise
+                pending = v
+            if pending is None:
+                Gg = res['G']
+                dct = st.asdict()
     if pending is None:
         _judge_class(N, Gg, res, dct, Gx, e, w, i1, i2, i3, av, good, goodnb, per)
+        if case.get('order', 0) % 3 == 0:
+            st.save_to_system()
+            for k in ('strain', 'invariant1', 'invariant2', 'invariant3', 'angularvelocity', 'nye'):
+                require(np.array_equal(np.asarray(s1.atoms.view[k]), res[k], equal_nan=True),
+                        lambda: 'Strain.save_to_system(): per-atom property %r of the system differs from Strain.%s' % (k, k))
+            labels.add('saved_to_system')
     # the function form
     if case['wrapper'] and not few:
         if refmode == 'base':
@@ -702,10 +1129,15 @@ def oracle_strain(case):
             wkw['axes'] = wrap_axes
         with warnings.catch_warnings():
             warnings.simplefilter('ignore')
-            if case['nbrmode'] == 'neighbors':
+            if hist['decoy']:
+                run_decoy(am)
+            if nbrmode == 'neighbors':
                 out = am.defect.nye_tensor(s1, pw, neighbors=nl1, **wkw)
+            elif nbrmode == 'attr':
+                s1.neighbors = nl1          # (an earlier query may have left another list there)
+                out = am.defect.nye_tensor(s1, pw, **wkw)
             else:
-                out = am.defect.nye_tensor(s1, pw, cutoff=rc, **wkw)
+                out = am.defect.nye_tensor(s1, pw, cutoff=rcv, **wkw)
         for key, exp, msk in (('strain', e, good), ('strain_invariant_1', i1, good), ('strain_invariant_2', i2, good),
                               ('strain_invariant_3', i3, good), ('angular_velocity', av, good),
                               ('Nye_tensor', np.zeros((3, 3)), goodnb)):
@@ -719,9 +1151,14 @@ def oracle_strain(case):
     # differential displacement of a homogeneous deformation: (F - I) d0 for every listed pair
     with warnings.catch_warnings():
         warnings.simplefilter('ignore')
-        dd = make_dd(am, s0, s1, case['ddref'], case.get('ddlazy', 0), cutoff=rc)
+        # under a homogeneous deformation both systems (and the earlier state of system1) have the same pairs: a stored
+        # list stays the reference system's list
+        dd = make_dd(am, s0, s1, case['ddref'], case.get('ddlazy', 0), other=other_cutoff(xt, rc, case.get('order', 0), 0.5)[0],
+                     pre=pre.get('dd'), reusable=True, cutoff=rcv)
+    if case.get('ddlazy', 0) >= 3:
+        labels.add('dd_resolved')
     Il, Jl = nlist_pairs(dd.neighbors, N)
-    check_list('DifferentialDisplacement(reference=%d)' % case['ddref'], Il, Jl, N, I0, J0)
+    check_list('DifferentialDisplacement(reference=%d, construction %d)' % (case['ddref'], case.get('ddlazy', 0)), Il, Jl, N, I0, J0)
     lut = {int(k): n for n, k in enumerate((I0 * N + J0).tolist())}
     idx = np.array([lut[int(k)] for k in (Il * N + Jl).tolist()], dtype=int)
     ddv = np.asarray(dd.ddvectors)
@@ -750,17 +1187,19 @@ def oracle_strain(case):
 
 # ----------------------------------------------------------------------------- slip
 
-def _dd_check(am, what, s0, s1, r, pos1, pbc, rc, u, reference, nbrmode, labels, lazy=0):
-    """DifferentialDisplacement on (s0, s1): per listed pair u_j - u_i, centres and directions in the reference system"""
+def _dd_check(am, what, s0, s1, r, pos1, pbc, rc, u, reference, nbrmode, labels, lazy=0, pos0=None, other=None, pre=None):
+    """DifferentialDisplacement on (s0, s1): per listed pair u_j - u_i, centres and directions in the reference system
+    (pos0 / pos1: the positions the two System objects hold now)"""
     N = r.natoms
-    refpos = r.pos if reference == 0 else pos1
+    refpos = (r.pos if pos0 is None else pos0) if reference == 0 else pos1
     with warnings.catch_warnings():
         warnings.simplefilter('ignore')
+        # a list stored while system1 was in an earlier state is still the reference system's list for reference=0 only
         if nbrmode == 'neighbors':
             nl = am.NeighborList(system=s0 if reference == 0 else s1, cutoff=rc)
-            dd = make_dd(am, s0, s1, reference, lazy, neighbors=nl)
+            dd = make_dd(am, s0, s1, reference, lazy, other=other, pre=pre, reusable=reference == 0, neighbors=nl)
         else:
-            dd = make_dd(am, s0, s1, reference, lazy, cutoff=rc)
+            dd = make_dd(am, s0, s1, reference, lazy, other=other, pre=pre, reusable=reference == 0, cutoff=rc)
     require(dd.reference == reference, lambda: '%s: reference is %r' % (what, dd.reference))
     Il, Jl = nlist_pairs(dd.neighbors, N)
     band = 1e-7 * rc
@@ -795,17 +1234,20 @@ def _dd_check(am, what, s0, s1, r, pos1, pbc, rc, u, reference, nbrmode, labels,
     return dd, Il, Jl
 
 
-def _disreg_check(am, what, s0, s1, r, sd, m_angle, n_flip, ofs):
+def _disreg_check(am, what, s0, s1, r, sd, m_angle, n_flip, ofs, pos0=None, aslists=False):
     nrm, x1, x2 = sd['nrm'], sd['x1'], sd['x2']
     a = math.radians(m_angle)
     m = math.cos(a) * x1 + math.sin(a) * x2
     n = -nrm if n_flip else nrm
     planepos = r.origin + sd['mid'] * nrm + ofs[0] * x1 + ofs[1] * x2
-    coord, dr = am.defect.disregistry(s0, s1, m=m, n=n, planepos=planepos)
+    if aslists:
+        coord, dr = am.defect.disregistry(s0, s1, m=m.tolist(), n=tuple(n.tolist()), planepos=planepos.tolist())
+    else:
+        coord, dr = am.defect.disregistry(s0, s1, m=m, n=n, planepos=planepos)
     coord, dr = np.asarray(coord), np.asarray(dr)
     require(coord.ndim == 1 and dr.shape == (len(coord), 3), lambda: '%s: shapes %r %r' % (what, coord.shape, dr.shape))
     adj = (sd['lay'] == sd['g']) | (sd['lay'] == sd['g'] + 1)
-    mine = np.sort(r.pos[adj] @ m)
+    mine = np.sort((r.pos if pos0 is None else pos0)[adj] @ m)
     tolc = 1e-8 * (1 + amax(mine))
     # same set of coordinates (the tool may list a coordinate twice when two atoms differ in the last bits)
     d1 = np.abs(coord[:, None] - mine[None, :])
@@ -831,25 +1273,51 @@ def oracle_slip(case):
     pbc = sd['pbc']
     labels = xtal_labels(r) | {'gap%d' % kgap, 'cut%d' % sd['cut']}
     pos1, origin1, shift = slipped(r, sd, sl)
-    s0 = mk_system(r.pos, r.atype, r.vects, r.origin, pbc)
-    s1 = mk_system(pos1, r.atype, r.vects, origin1, pbc)
-    if not (box_kept(s0, r.vects, r.origin) and box_kept(s1, r.vects, origin1)):
-        return labels | {'box_zeroed_skip'}
+    hist = case.get('hist') or NOHIST
+    forms = hist['forms']
+    rcv = np.float64(rc) if forms & 1 else rc
+    lazy = case.get('ddlazy', 0)
     N = r.natoms
     u, upper = sd['u'], sd['upper']
+    # ---- the two System objects and their earlier life.  wrap() of the reference is kept to cases where the cut axis is
+    # open (along a periodic cut axis it may move a whole boundary layer to the other side, which changes which two
+    # planes adjoin the slip plane - the planes the case was built around)
+    s0, kept0, pos0 = make_reference(am, hist, r, pbc, xt, rc, labels, not sl['cutpbc'])
+    pre = {}
+
+    def while_A(sA, keptA):
+        if lazy == 5:
+            with warnings.catch_warnings():
+                warnings.simplefilter('ignore')
+                pre['dd'] = am.defect.DifferentialDisplacement(s0, sA, cutoff=rc, reference=case['ddref'])
+    stateA = (r.pos, r.vects, r.origin)
+    if hist['build1'] and hist['build1']['state'] == 'other':
+        stateA = (r.pos - 0.5 * u, r.vects, r.origin)           # the opposite slip, not wrapped
+    s1, kept1, pos1 = make_current(am, hist, r, stateA, pos1, r.vects, origin1, pbc, xt, rc, labels, True, while_A)
+    if not (kept0 and kept1):
+        return labels | {'box_zeroed_skip'}
     I0, J0, D0, L0 = pair_table(r.pos, r.vects, pbc, rc)
     # ---- slip vector
     across = upper[I0] != upper[J0]
     nacross = np.bincount(I0[across], minlength=N)
     rel = np.where(upper[:, None], sd['u_up'] - sd['u_low'], sd['u_low'] - sd['u_up'])
     exp_sv = nacross[:, None] * rel
-    with warnings.catch_warnings():
-        warnings.simplefilter('ignore')
-        if case['svnbr'] == 'neighbors':
-            sv = am.defect.slip_vector(s0, s1, neighbors=am.NeighborList(system=s0, cutoff=rc))
-        else:
-            sv = am.defect.slip_vector(s0, s1, cutoff=rc)
-    sv = np.asarray(sv)
+
+    def call_sv():
+        with warnings.catch_warnings():
+            warnings.simplefilter('ignore')
+            if case['svnbr'] == 'neighbors':
+                return am.defect.slip_vector(s0, s1, neighbors=am.NeighborList(system=s0, cutoff=rcv))
+            if case['svnbr'] == 'attr':
+                # documented third route: "or system_0 must have a neighbors attribute"
+                s0.neighbors = am.NeighborList(system=s0, cutoff=rcv)
+                return am.defect.slip_vector(s0, s1)
+            return am.defect.slip_vector(s0, s1, cutoff=rcv)
+    if hist['decoy']:
+        run_decoy(am)
+        labels.add('decoy')
+    sv = np.asarray(call_sv())
+    labels.add('sv_' + case['svnbr'])
     require(sv.shape == (N, 3), lambda: 'slip_vector returned shape %r' % (sv.shape,))
     tol = TOL + 64 * DR.EPS * (amax(pos1) + amax(r.pos)) * max(1, nacross.max())
     err = np.abs(sv - exp_sv).max(axis=1)
@@ -861,13 +1329,26 @@ def oracle_slip(case):
     if nacross[upper].any() and nacross[~upper].any():
         labels.add('both_halves_judged')
     # ---- disregistry
-    _disreg_check(am, 'disregistry', s0, s1, r, sd, case['m_angle'], case['n_flip'], case['plane_ofs'])
+    what_dr = 'disregistry'
+    cd, dr = _disreg_check(am, what_dr, s0, s1, r, sd, case['m_angle'], case['n_flip'], case['plane_ofs'], pos0, bool(forms & 2))
     # ---- differential displacement
-    _dd_check(am, 'DifferentialDisplacement(reference=%d, %s, construction %d)' % (case['ddref'], case['ddnbr'], case.get('ddlazy', 0)),
-              s0, s1, r, pos1, pbc, rc, u, case['ddref'], case['ddnbr'], labels, case.get('ddlazy', 0))
-    if case.get('ddlazy', 0):
+    if hist['decoy']:
+        run_decoy(am)
+    oc, _ = other_cutoff(xt, rc, sl['layer'], sl['frac'])
+    _dd_check(am, 'DifferentialDisplacement(reference=%d, %s, construction %d)' % (case['ddref'], case['ddnbr'], lazy),
+              s0, s1, r, pos1, pbc, rc, u, case['ddref'], case['ddnbr'], labels, lazy, pos0, oc, pre.get('dd'))
+    if lazy:
         labels.add('dd_solve_later')
+    if lazy >= 3:
+        labels.add('dd_resolved')
     labels.add('ddref%d' % case['ddref'])
+    if hist['repeat']:
+        # the same calls once more in the same process, after everything else ran on the same objects
+        sv2 = np.asarray(call_sv())
+        require(np.array_equal(sv2, sv), 'slip_vector() of the same two systems differs between two calls')
+        cd2, dr2 = _disreg_check(am, what_dr + ' (second call)', s0, s1, r, sd, case['m_angle'], case['n_flip'], case['plane_ofs'], pos0, False)
+        require(np.array_equal(cd2, cd) and np.array_equal(dr2, dr), 'disregistry() of the same two systems differs between two calls')
+        labels.add('repeat')
     # ---- Nye tensor on a non-uniform G: class, function and -curl G must agree
     if case['nye']:
         kw = {} if case['theta'] is None else {'theta_max': case['theta']}
@@ -995,8 +1476,14 @@ def oracle_invariance(case):
         Fmap = I3
     labels |= xtal_labels(r)
     N = r.natoms
-    s0 = mk_system(r.pos, r.atype, r.vects, r.origin, pbc)
-    s1 = mk_system(pos1, r.atype, vects1, origin1, pbc)
+    # the first pair of System objects has been used before (earlier queries, stale 'neighbors' attributes, other
+    # systems analysed in between); the transformed pair is fresh
+    hist = case.get('hist') or NOHIST
+    s0, _, _ = make_reference(am, hist, r, pbc, xt, rc, labels, False)
+    s1, _, _ = make_current(am, dict(hist, build1=None), r, None, pos1, vects1, origin1, pbc, xt, rc, labels, False)
+    if hist['decoy']:
+        run_decoy(am)
+        labels.add('decoy')
     # the transformed pair: renumber both alike, translate both by the same vector; 'origin': the cells move with
     # the atoms; 'wrap': the cells stay and the atoms are wrapped back (periodic axes only; for a slipped crystal
     # only in-plane, so that the two planes adjoining the slip plane stay the same atoms); 'both': cells move by one
